@@ -196,7 +196,10 @@ func (r *runner) disk() map[string]any {
 	return m
 }
 
-func tarDir(dir, out string) error {
+// tarDir archives the layout directory. stale, when not nil, is written first as an earlier index.json member: an
+// archive that was updated in place (tar -r) holds the old and the new index.json, and the later member is the one
+// that counts.
+func tarDir(dir, out string, stale []byte) error {
 	f, err := os.Create(out)
 	if err != nil {
 		return err
@@ -204,6 +207,14 @@ func tarDir(dir, out string) error {
 	defer f.Close()
 	tw := tar.NewWriter(f)
 	defer tw.Close()
+	if stale != nil {
+		if err := tw.WriteHeader(&tar.Header{Name: "index.json", Mode: 0o644, Size: int64(len(stale)), Typeflag: tar.TypeReg}); err != nil {
+			return err
+		}
+		if _, err := tw.Write(stale); err != nil {
+			return err
+		}
+	}
 	return filepath.Walk(dir, func(p string, fi os.FileInfo, err error) error {
 		if err != nil {
 			return err
@@ -253,9 +264,14 @@ func (r *runner) reopen(ctx context.Context, mode string) {
 		mode = "rw"
 	case "fs":
 		st, err = oci.NewFromFS(ctx, os.DirFS(r.dir))
-	case "tar":
+	case "tar", "tarupdated":
 		tp := filepath.Join(filepath.Dir(r.dir), fmt.Sprintf("layout-%d.tar", r.sc.ID))
-		if err = tarDir(r.dir, tp); err == nil {
+		var stale []byte
+		if mode == "tarupdated" {
+			stale = []byte(`{"schemaVersion":2,"manifests":[]}`)
+			mode = "tar"
+		}
+		if err = tarDir(r.dir, tp, stale); err == nil {
 			st, err = oci.NewFromTar(ctx, tp)
 		}
 		defer os.Remove(tp)
@@ -376,7 +392,7 @@ func RunOne(t *testing.T, sc *Scenario, tr *vh.Tracer, base string) bool {
 		}
 		tr.Emit(r.disk())
 		if sc.Reopen == "all" || last || op == "delete" || op == "gc" {
-			for _, m := range []string{"rw", "fs", "tar", "rwcancel"} {
+			for _, m := range []string{"rw", "fs", "tar", "tarupdated", "rwcancel"} {
 				r.reopen(ctx, m)
 			}
 		} else {
